@@ -154,25 +154,29 @@ Definition spark_of (i : ein) : rv :=
   | IUnixMillis us => RInt (spark_unix_millis us)
   end.
 
-(** the domain on which the emulation's theorem claims equality *)
-Definition in_dom (i : ein) : bool :=
+(** the domain on which the emulation's theorem, instantiated on the facts F, claims equality (false everywhere when the
+    generated shape is not the one the theorem needs, e.g. slice in the unchanged tree) *)
+Definition in_dom (F : facts) (i : ein) : bool :=
   match i with
-  | ISlice l s n => (1 <=? s) && (0 <=? n)
-  | IElementAt l e | ITryElementAt l e => simple e && negb (ieval e =? 0)
-  | IGetItem l e => is_lit e && (0 <=? ieval e)
-  | IArrayMin l | IArrayMax l => negb (match l with [] => true | _ => false end)
-  | IArrayPosition l v => match l with Some _ => true | None => false end
-  | IFactorial n => (0 <=? n) && (n <=? 20)
-  | IRint n d => (0 <? d) && negb (is_tie n d)
-  | IDayOfWeek _ => true
-  | IOverlay s r pos len => (1 <=? pos) && (0 <=? len)
-  | IArraysOverlap _ _ | IArrayUnion _ _ => true
-  | IArrayRemove l v => no_nulls l
-  | INanvl a b => match a with Some _ => true | None => false end
-  | ISequence a b st => match st with Some _ => true | None => a <=? b end
-  | IDateAdd _ _ | IDateSub _ _ => true
-  | ILevenshtein dist _ => match dist with Some _ => true | None => false end
-  | IUnixMillis us => us mod 1000000 =? 0
+  | ISlice l s n => slice_cfg_ok (f_slice F) && (1 <=? s) && (0 <=? n)
+  | IElementAt l e => element_at_cfg_ok (f_element_at F) && simple e && negb (ieval e =? 0)
+  | ITryElementAt l e => element_at_cfg_ok (f_try_element_at F) && simple e && negb (ieval e =? 0)
+  | IGetItem l e => getitem_cfg_ok (f_getitem F) (f_element_at F) && is_lit e && (0 <=? ieval e)
+  | IArrayMin l => element_at_cfg_ok (f_element_at F) && (f_array_min_idx F =? 1) && negb (match l with [] => true | _ => false end)
+  | IArrayMax l => element_at_cfg_ok (f_element_at F) && (f_array_max_idx F =? -1) && negb (match l with [] => true | _ => false end)
+  | IArrayPosition l v => pos_cfg_ok (f_pos F) && match l with Some _ => true | None => false end
+  | IFactorial n => fact_cfg_ok (f_fact F) && (0 <=? n) && (n <=? 20)
+  | IRint n d => rint_cfg_ok (f_rint F) && (0 <? d) && negb (is_tie n d)
+  | IDayOfWeek _ => f_dow F =? 1
+  | IOverlay s r pos len => overlay_cfg_ok (f_overlay F) && (1 <=? pos) && (0 <=? len)
+  | IArraysOverlap _ _ => overlap_cfg_ok (f_overlap F)
+  | IArrayUnion _ _ => union_cfg_ok (f_union F)
+  | IArrayRemove l v => cmpop_eqb (f_remove F) CNe && no_nulls l
+  | INanvl a b => nanvl_cfg_ok (f_nanvl F) && match a with Some _ => true | None => false end
+  | ISequence a b st => (f_seq_default F =? 1) && match st with Some _ => true | None => a <=? b end
+  | IDateAdd _ _ | IDateSub _ _ => dshift_cfg_ok (f_date_add F) && dshift_cfg_ok (f_date_sub F)
+  | ILevenshtein dist _ => lev_cfg_ok (f_lev F) && match dist with Some _ => true | None => false end
+  | IUnixMillis us => (f_unix_millis F =? 1000) && (us mod 1000000 =? 0)
   end.
 
 Open Scope string_scope.
@@ -181,4 +185,4 @@ Definition bit (b : bool) : string := if b then "1" else "0".
     definition, c = input in the theorem's domain, d = the two models agree on this input *)
 Definition check (F : facts) (c : ein * rv * rv) : string :=
   let '(i, impl, sp) := c in
-  bit (rv_eqb (duck_of F i) impl) ++ bit (rv_eqb (spark_of i) sp) ++ bit (in_dom i) ++ bit (rv_eqb (duck_of F i) (spark_of i)).
+  bit (rv_eqb (duck_of F i) impl) ++ bit (rv_eqb (spark_of i) sp) ++ bit (in_dom F i) ++ bit (rv_eqb (duck_of F i) (spark_of i)).
